@@ -476,7 +476,28 @@ ASM_FLOORS = {
                            'asm:part-ends-in-exactly-one-newline:write(str(p))': 60,
                            'asm:part-ends-in-exactly-one-newline:write(dump())': 60},
               'monitors': {'M.asm': 2700}},
-    'thorough': {'route_api': 0, 'counters': {}, 'monitors': {}},
+    'thorough': {'route_api': 18000,
+                 'counters': {'doc:asm': 4500, 'api:Deb822.iter_paragraphs': 36000, 'api:Dsc.iter_paragraphs': 36000,
+                              'api:Changes.iter_paragraphs': 36000,
+                              'asm:form:str': 13000, 'asm:form:bytes': 13000, 'asm:form:lines_nl': 13000, 'asm:form:lines_nonl': 13000,
+                              'asm:form:textio': 13000, 'asm:form:bytesio': 13000, 'asm:form:binfile': 13000,
+                              'asm:form:tw:utf-8': 5700, 'asm:form:tf:utf-8': 5700, 'asm:form:tw:8bit': 390, 'asm:form:tf:8bit': 390,
+                              'asm:form:tw:utf-16': 540, 'asm:form:tf:utf-16': 540,
+                              'asm:last-field:empty-value': 430, 'asm:last-field:single-line': 1700,
+                              'asm:last-field:single-line-trailing-blank': 2900, 'asm:last-field:multi-line': 3000,
+                              'asm:last-field:multi-line-trailing-blank': 5400,
+                              'asm:paragraphs=2': 1900, 'asm:paragraphs=3': 1300, 'asm:paragraphs=4': 630, 'asm:paragraphs=5': 660,
+                              'asm:part-ends-in-exactly-one-newline:str()': 27000, 'asm:part-ends-in-exactly-one-newline:dump()': 27000,
+                              'asm:part-ends-in-exactly-one-newline:bytes()': 27000, 'asm:part-ends-in-exactly-one-newline:dump(fd)': 30000,
+                              'asm:part-ends-in-exactly-one-newline:dump(fd,encoding)': 16000,
+                              'asm:part-ends-in-exactly-one-newline:dump(fd,text_mode)': 30000,
+                              'asm:part-ends-in-exactly-one-newline:print(p,file=fd)': 12000,
+                              'asm:part-ends-in-exactly-one-newline:write(bytes(p))': 2500,
+                              'asm:part-ends-in-exactly-one-newline:write(str(p).encode())': 2500,
+                              'asm:part-ends-in-exactly-one-newline:write(dump().encode())': 2500,
+                              'asm:part-ends-in-exactly-one-newline:write(str(p))': 2500,
+                              'asm:part-ends-in-exactly-one-newline:write(dump())': 2500},
+                 'monitors': {'M.asm': 108000}},
 }
 for _tier, _table in ASM_FLOORS.items():
     FLOORS[_tier]['counters'].update(_table['counters'])
